@@ -737,6 +737,52 @@ def rule_e11(F):
     return r
 
 
+def rule_e12(F):
+    """Pairing up the components of two types with `zip` silently stops at the shorter list, so it only proves 'the components that
+    both have unify'.  For two records that is not unification (a missing or extra field is a type error): a zip over field lists
+    must stand behind a comparison of the two lengths (as unify_fields does).  The two zips over plain type lists - arguments of one
+    and the same named type, parameters of function types - are reviewed sites: their lengths are fixed by the declaration."""
+    r = RuleResult("C07.E12", "unification pairs the components of two types only when their number is known to agree (zip behind a length comparison, or a reviewed fixed-arity site)", floor=2)
+    ub = [b for b in F.all_bodies() if b.mir and b.path.startswith("typechecker::") and "{closure" not in b.path and hir.last(b.path) in ("unify_inner", "unify_fields", "unify")]
+    if not any(hir.last(b.path) == "unify_inner" for b in ub):
+        r.missing("typechecker::TypeChecker::unify_inner")
+        return r
+    # private helpers of the type checker that unify_inner calls belong to it
+    seen = {b.path for b in ub}
+    for b in list(ub):
+        for _, t in mir.calls(b):
+            c = mir.callee(t) or ""
+            if c.startswith("typechecker::") and c not in seen and F.body(c) is not None and F.body(c).mir and "unify" in hir.last(c):
+                seen.add(c)
+                ub.append(F.body(c))
+    for b in ub:
+        dom = None
+        defs = None
+        for bi, t in mir.calls(b):
+            if hir.last(mir.callee_def(t) or "") != "zip" or "Iterator" not in (mir.callee_def(t) or ""):
+                continue
+            ga = " ".join(t["f"].get("gargs") or [])
+            plain = all(x.replace("&", "").replace("'_, ", "").strip() in ("std::slice::Iter<typechecker::types::Type>", "std::vec::Vec<typechecker::types::Type>", "[typechecker::types::Type]")
+                        for x in (t["f"].get("gargs") or []))
+            dom = dom or mir.dominators(b)
+            defs = defs or mir.Defs(b)
+            # a dominating branch on a comparison of two `len()` results
+            guarded = False
+            for x in dom[bi]:
+                tt = b.blocks[x]["term"]
+                if tt["k"] != "switch" or not mir.is_place_op(tt["o"]):
+                    continue
+                lens = [y for y in mir.back_calls(b, defs, tt["o"][1][0]) if hir.last(mir.callee_def(b.blocks[y]["term"]) or "") == "len"]
+                if len(lens) >= 2:
+                    guarded = True
+            r.inst("%s zip #%d" % (hir.last(b.path), len(r.instances)), {"fn": b.path, "line": t.get("line"), "items": ga[:120], "behind_length_comparison": guarded, "plain_type_lists": plain})
+            if not guarded and not plain:
+                r.bad(b.path, "zip over component lists without a length comparison", relfile(b.file), t.get("line") or b.line,
+                      "%s pairs the components of two types with zip (%s) without comparing how many there are: zip stops at the shorter list, so a record type whose fields are a "
+                      "prefix of another's unifies with it - `fn f(x: {a: i32, b: i32})` accepts a `{a: i32}` and reads a field that is not there" % (hir.last(b.path), ga[:80]))
+    return r
+
+
 def rules(ctx):
     F = ctx["F"]
-    return [rule_e1(F), rule_e2(F), rule_e3(F), rule_e4(F), rule_e5(F), rule_e6(F), rule_e7(F), rule_e8(F), rule_e9(F), rule_e10(F), rule_e11(F)]
+    return [rule_e1(F), rule_e2(F), rule_e3(F), rule_e4(F), rule_e5(F), rule_e6(F), rule_e7(F), rule_e8(F), rule_e9(F), rule_e10(F), rule_e11(F), rule_e12(F)]
